@@ -339,11 +339,14 @@ RouteClass(h, p, dst) ==
     LET r == Route(h, p, dst) IN
     IF r.res = "err" THEN "refused"
     ELSE IF dst.k = "bcast" THEN "bcast"
-    ELSE IF dst.k = "mc" THEN (IF r.los # <<>> THEN "mcloop" ELSE IF r.nets # {} THEN "mcnet" ELSE "mcnone")
+    ELSE IF dst.k = "mc" THEN (IF r.los # <<>> THEN "mcloop"
+                               ELSE IF r.nets # {} /\ h \in McastTargets(dst) THEN "mcskip"   \* local member skipped (loop off),
+                               ELSE IF r.nets # {} THEN "mcnet" ELSE "mcnone")                 \* the other members still served
     ELSE IF dst.k = "lo" THEN "loop"
     ELSE IF r.los # <<>> THEN "self" ELSE "remote"
 SendBcast(h, p, dst, len)   == dst.k = "bcast" /\ "send" \in Ops /\ Bound(h, p) /\ DstOk(dst) /\ RouteClass(h, p, dst) = "bcast"   /\ Send(h, p, dst, len)
 SendMcNet(h, p, dst, len)   == dst.k = "mc" /\ "send" \in Ops /\ Bound(h, p) /\ DstOk(dst) /\ RouteClass(h, p, dst) = "mcnet"   /\ Send(h, p, dst, len)
+SendMcSkip(h, p, dst, len)  == dst.k = "mc" /\ "send" \in Ops /\ Bound(h, p) /\ DstOk(dst) /\ RouteClass(h, p, dst) = "mcskip"  /\ Send(h, p, dst, len)
 SendMcLoop(h, p, dst, len)  == dst.k = "mc" /\ "send" \in Ops /\ Bound(h, p) /\ DstOk(dst) /\ RouteClass(h, p, dst) = "mcloop"  /\ Send(h, p, dst, len)
 SendMcNone(h, p, dst, len)  == dst.k = "mc" /\ "send" \in Ops /\ Bound(h, p) /\ DstOk(dst) /\ RouteClass(h, p, dst) = "mcnone"  /\ Send(h, p, dst, len)
 SendLoop(h, p, dst, len)    == dst.k = "lo" /\ "send" \in Ops /\ Bound(h, p) /\ DstOk(dst) /\ RouteClass(h, p, dst) = "loop"    /\ Send(h, p, dst, len)
@@ -407,6 +410,7 @@ Next ==
     \/ \E h \in Hosts, p \in Ports, on \in BOOLEAN : SetMl(h, p, on)
     \/ \E h \in Hosts, p \in Ports, len \in Lens : \E dst \in DstChoices : SendBcast(h, p, dst, len)
     \/ \E h \in Hosts, p \in Ports, len \in Lens : \E dst \in DstChoices : SendMcNet(h, p, dst, len)
+    \/ \E h \in Hosts, p \in Ports, len \in Lens : \E dst \in DstChoices : SendMcSkip(h, p, dst, len)
     \/ \E h \in Hosts, p \in Ports, len \in Lens : \E dst \in DstChoices : SendMcLoop(h, p, dst, len)
     \/ \E h \in Hosts, p \in Ports, len \in Lens : \E dst \in DstChoices : SendMcNone(h, p, dst, len)
     \/ \E h \in Hosts, p \in Ports, len \in Lens : \E dst \in DstChoices : SendLoop(h, p, dst, len)
